@@ -246,6 +246,22 @@ def poles_slot(prog, run):
     run.ob("R-order-slot", fi.qual, "every table column written is the order index used to fetch A, C", okc,
            f"{len(stores)} stores into column(s) {sorted({astq.src(col) for n, col in stores})}; matrices fetched at [{astq.src(ia) if ia is not None else '?'}]",
            str(sorted({astq.src(col) for n, col in stores})), file=f, node=stores[0][0])
+    # tables that receive the complex mode shapes / eigenvalues returned by ac2mp must be complex arrays
+    unpack = None
+    pmap = astq.parent_map(pf.node)
+    st = pmap.get(c)
+    if isinstance(st, ast.Assign) and isinstance(st.targets[0], ast.Tuple):
+        unpack = [e.id if isinstance(e, ast.Name) else None for e in st.targets[0].elts]
+    cplx_locals = {unpack[k] for k in (2, 3) if unpack and len(unpack) > k and unpack[k]}
+    for n, col in stores:
+        if isinstance(n.value, ast.Name) and n.value.id in cplx_locals:
+            tname = n.targets[0].value.id
+            alloc = astq.expand(pf, ast.Name(id=tname, ctx=ast.Load()))
+            txt = astq.src(alloc, 200)
+            okc = isinstance(alloc, ast.Call) and (("dtype=complex" in txt.replace(" ", "")) or ("astype(complex)" in txt.replace(" ", "")) or ("complex128" in txt))
+            run.ob("R-order-slot", fi.qual, f"table receiving the complex `{n.value.id}` of ac2mp is allocated complex", okc,
+                   f"`{tname} = {txt[:70]}`" + ("" if okc else ": a real table silently drops the imaginary part of complex mode shapes / eigenvalues"),
+                   f"{tname}: {txt[:50]}", file=f, node=n, config=tname)
     d = astq.expr_at(pf, c, astq.kwarg(c, "dt", 2)) if astq.kwarg(c, "dt", 2) is not None else None
     okd = isinstance(d, ast.Name) and d.id == "dt"
     run.ob("R-order-slot", fi.qual, "the sampling interval handed to ac2mp is the dt argument", okd, f"dt <- `{astq.src(d) if d is not None else None}`", astq.src(d) if d is not None else "none", file=f, node=c)
@@ -267,6 +283,7 @@ MUTANTS = [
     ("C01-m12 C of another order", S, "SSI_poles", "C = CC[ii]", "C = CC[ii - 1]"),
     ("C01-m13 channel count from the columns", S, "SSI_fast", "l = int(H.shape[0] / (br + 1))", "l = int(H.shape[1] / (br + 1))"),
     ("C01-m14 damping from the imaginary part", S, "ac2mp", "xi = -(np.real(lam_c) / abs(lam_c))", "xi = -(np.imag(lam_c) / abs(lam_c))"),
+    ("C01-m16 mode-shape table allocated real", S, "SSI_poles", "Phi = np.full((ordmax, int(ordmax / step + 1), Nch), np.nan, dtype=complex)", "Phi = np.full((ordmax, int(ordmax / step + 1), Nch), np.nan)"),
     ("C01-m15 multi-setup C without the roving rows", S, "SSI_multi_setup", "C.append(Obs_all[:n_DOF, :i])", "C.append(Obs_all[:n_ref, :i])"),
 ]
 REWRITES = [
